@@ -51,6 +51,9 @@ import (
 
 func init() { engines["bcast"] = bcastEngine }
 
+var bcDeadline = 3 * time.Second
+var bcTimeouts = 0
+
 const bcBeaconID = "default"
 
 type bcPkt struct {
@@ -277,6 +280,13 @@ func (n *bcNet) settle(before *bcSnap, again [][2]int, pusher int) {
 		// a worker that does not show up within the deadline is not running any more: do not wait for it again
 		if !n.waitFor(func() bool { return n.isParked(w[0], w[1]) }) {
 			n.dead[w] = true
+			// on the unchanged code this never happens; a build whose workers do not pick up what they are offered gets a
+			// generous wait three times (machine load), then short ones
+			bcTimeouts++
+			if bcTimeouts >= 3 {
+				bcDeadline = 300 * time.Millisecond
+			}
+			n.deadline = bcDeadline
 		}
 	}
 }
@@ -640,7 +650,7 @@ func bcastEngine(_ []string, in *bufio.Scanner, out *bufio.Writer) {
 					}
 				}
 				n = &bcNet{byAddr: map[string]*bcNode{}, parked: map[[2]int]*bcCall{}, own: map[int]map[string]bool{}, plan: map[[2]int]bool{},
-					hids: map[string]int{}, pkts: map[string]*bcPkt{}, deadline: 1500 * time.Millisecond, dead: map[[2]int]bool{}}
+					hids: map[string]int{}, pkts: map[string]*bcPkt{}, deadline: bcDeadline, dead: map[[2]int]bool{}}
 				r := n.mkNet(f)
 				mop = "net " + f[2]
 				return r
